@@ -129,6 +129,10 @@ pub struct Instance {
     pub history: Vec<Step>,
     /// how often the program itself is compiled before the rendering that is compared
     pub repeat: usize,
+    /// via_driver only: seed of the order in which the stages are requested from the Driver
+    /// (0 = Core, focused, AxCut, linearized, x86-64, AArch64, RISC-V)
+    #[serde(default)]
+    pub order: u64,
 }
 
 #[derive(Serialize, Deserialize, Clone, Debug)]
@@ -146,49 +150,93 @@ pub struct KReplay {
     pub minimised: bool,
 }
 
-/// the same stages through `driver::Driver::print_*` and the files it writes
-pub fn renderings_via_driver(src: &str, repeat: usize) -> Result<Vec<String>, String> {
+/// the same stages through `driver::Driver::print_*` and the files it writes. `history` programs
+/// are compiled first by the same Driver object from files with the same name in other
+/// directories; `order` seeds the order in which stages (and plain stage accessors) are requested.
+pub fn renderings_via_driver(src: &str, repeat: usize, order: u64, history: &[String]) -> Result<Vec<String>, String> {
     use driver::paths::Paths;
     use driver::{Driver, PrintMode};
     let dir = format!("{}/work/kd-{}-{:?}", verif_dir(), std::process::id(), std::thread::current().id()).replace(['(', ')'], "");
     std::fs::create_dir_all(&dir).map_err(|e| e.to_string())?;
     let old = std::env::current_dir().map_err(|e| e.to_string())?;
     std::env::set_current_dir(&dir).map_err(|e| e.to_string())?;
+    // one request to the Driver; failures of the code generators are caught by the caller
+    fn request(d: &mut Driver, path: &std::path::PathBuf, op: usize) -> Result<(), String> {
+        let e = |e: driver::result::DriverError| format!("{e:?}");
+        match op {
+            0 => d.print_compiled(path, PrintMode::Textual).map_err(e),
+            1 => d.print_focused(path, PrintMode::Textual).map_err(e),
+            2 => d.print_shrunk(path, PrintMode::Textual).map_err(e),
+            3 => d.print_linearized(path, PrintMode::Textual).map_err(e),
+            4 => d.print_x86_64(path, PrintMode::Textual).map(|_| ()).map_err(e),
+            5 => d.print_aarch64(path, PrintMode::Textual).map(|_| ()).map_err(e),
+            6 => d.print_rv_64(path, PrintMode::Textual).map_err(e),
+            // plain accessors: fill the Driver's caches without printing
+            7 => d.parsed(path).map(|_| ()).map_err(e),
+            8 => d.checked(path).map(|_| ()).map_err(e),
+            9 => d.compiled(path).map(|_| ()).map_err(e),
+            10 => d.uniquified(path).map(|_| ()).map_err(e),
+            11 => d.focused(path).map(|_| ()).map_err(e),
+            12 => d.shrunk(path).map(|_| ()).map_err(e),
+            _ => d.linearized(path).map(|_| ()).map_err(e),
+        }
+    }
     let r = (|| -> Result<Vec<String>, String> {
-        let path = std::path::PathBuf::from("p.sc");
-        std::fs::write(&path, src).map_err(|e| e.to_string())?;
         let mut d = Driver::new();
-        let mut out = Vec::new();
-        for round in 0..=repeat {
-            out.clear();
-            d.print_compiled(&path, PrintMode::Textual).map_err(|e| format!("{e:?}"))?;
-            d.print_focused(&path, PrintMode::Textual).map_err(|e| format!("{e:?}"))?;
-            d.print_shrunk(&path, PrintMode::Textual).map_err(|e| format!("{e:?}"))?;
-            d.print_linearized(&path, PrintMode::Textual).map_err(|e| format!("{e:?}"))?;
+        let mut rng = Rng::keyed(order, 0, "k-order");
+        // earlier compilations by the same Driver: same file name, other directory
+        for (i, h) in history.iter().enumerate() {
+            let hd = std::path::PathBuf::from(format!("h{i}"));
+            std::fs::create_dir_all(&hd).map_err(|e| e.to_string())?;
+            let hp = hd.join("p.sc");
+            std::fs::write(&hp, h).map_err(|e| e.to_string())?;
+            let ops: Vec<usize> = if order == 0 { vec![0, 1, 2, 3] } else { (0..1 + rng.below(4)).map(|_| rng.below(14)).collect() };
+            for op in ops {
+                let _ = std::panic::catch_unwind(std::panic::AssertUnwindSafe(|| request(&mut d, &hp, op)));
+            }
+        }
+        let md = std::path::PathBuf::from("m");
+        std::fs::create_dir_all(&md).map_err(|e| e.to_string())?;
+        let path = md.join("p.sc");
+        std::fs::write(&path, src).map_err(|e| e.to_string())?;
+        let mut out = vec![String::new(); 7];
+        for _round in 0..=repeat {
+            let mut ops: Vec<usize> = (0..7).collect();
+            if order != 0 {
+                rng.shuffle(&mut ops);
+                for _ in 0..rng.below(4) {
+                    let at = rng.below(ops.len() + 1);
+                    ops.insert(at, 7 + rng.below(7));
+                }
+            }
             let rd = |p: std::path::PathBuf| std::fs::read_to_string(&p).map_err(|e| format!("{p:?}: {e}"));
-            out.push(rd(Paths::compiled_dir().join("p.txt"))?);
-            out.push(rd(Paths::focused_dir().join("p.txt"))?);
-            out.push(rd(Paths::shrunk_dir().join("p.txt"))?);
-            out.push(rd(Paths::linearized_dir().join("p.txt"))?);
-            let x = std::panic::catch_unwind(std::panic::AssertUnwindSafe(|| d.print_x86_64(&path, PrintMode::Textual).map(|_| ())));
-            out.push(match x {
-                Ok(Ok(())) => rd(Paths::x86_64_assembly_dir().join("p.asm"))?,
-                Ok(Err(e)) => return Err(format!("{e:?}")),
-                Err(e) => format!("PANIC: {}", seam::panic_msg(&e)),
-            });
-            let x = std::panic::catch_unwind(std::panic::AssertUnwindSafe(|| d.print_aarch64(&path, PrintMode::Textual).map(|_| ())));
-            out.push(match x {
-                Ok(Ok(())) => rd(Paths::aarch64_assembly_dir().join("p.asm"))?,
-                Ok(Err(e)) => return Err(format!("{e:?}")),
-                Err(e) => format!("PANIC: {}", seam::panic_msg(&e)),
-            });
-            let x = std::panic::catch_unwind(std::panic::AssertUnwindSafe(|| d.print_rv_64(&path, PrintMode::Textual)));
-            out.push(match x {
-                Ok(Ok(())) => rd(Paths::risc_v_assembly_dir().join("p.asm"))?,
-                Ok(Err(e)) => return Err(format!("{e:?}")),
-                Err(e) => format!("PANIC: {}", seam::panic_msg(&e)),
-            });
-            let _ = round;
+            for op in ops {
+                let x = std::panic::catch_unwind(std::panic::AssertUnwindSafe(|| request(&mut d, &path, op)));
+                // the file a stage writes is read right after the request (a later request for
+                // another program or stage must not be able to change what was handed out)
+                let file = match op {
+                    0 => Paths::compiled_dir().join("p.txt"),
+                    1 => Paths::focused_dir().join("p.txt"),
+                    2 => Paths::shrunk_dir().join("p.txt"),
+                    3 => Paths::linearized_dir().join("p.txt"),
+                    4 => Paths::x86_64_assembly_dir().join("p.asm"),
+                    5 => Paths::aarch64_assembly_dir().join("p.asm"),
+                    6 => Paths::risc_v_assembly_dir().join("p.asm"),
+                    _ => {
+                        if let Ok(Err(e)) = x {
+                            return Err(e);
+                        }
+                        continue;
+                    }
+                };
+                out[op] = match x {
+                    Ok(Ok(())) => rd(file)?,
+                    Ok(Err(e)) => return Err(e),
+                    // only the code generators have documented capacity assertions
+                    Err(e) if op >= 4 => format!("PANIC: {}", seam::panic_msg(&e)),
+                    Err(e) => std::panic::resume_unwind(e),
+                };
+            }
         }
         Ok(out)
     })();
@@ -199,14 +247,15 @@ pub fn renderings_via_driver(src: &str, repeat: usize) -> Result<Vec<String>, St
 
 pub fn run_instance(src: &str, inst: &Instance) -> Result<Vec<String>, String> {
     let r = seam::in_instance(inst.keys, || {
-        for Step::Compile(s) in &inst.history {
-            let _ = renderings(s);
-        }
         if inst.via_driver {
-            return renderings_via_driver(src, inst.repeat).map_err(|e| {
+            let hist: Vec<String> = inst.history.iter().map(|Step::Compile(s)| s.clone()).collect();
+            return renderings_via_driver(src, inst.repeat, inst.order, &hist).map_err(|e| {
                 // the driver reports front-end errors in its own format; normalise to the kind
                 if e.contains("Parse") { "parse error".to_string() } else { "type error".to_string() }
             });
+        }
+        for Step::Compile(s) in &inst.history {
+            let _ = renderings(s);
         }
         for _ in 0..inst.repeat {
             let _ = renderings(src);
@@ -247,6 +296,47 @@ pub fn compare(src: &str, a: &Instance, b: &Instance) -> Option<(String, String)
         }
         (Ok(_), Err(y)) | (Err(y), Ok(_)) => Some(("front".into(), format!("one instance compiled, the other failed: {y}"))),
     }
+}
+
+/// A small program that declares every type name of `src` with the opposite polarity (data <->
+/// codata) and uses each of them once. Compiling it earlier in the same process must not change
+/// how `src` is compiled (per-process tables keyed by type name).
+pub fn flip_polarity_sibling(src: &str) -> Option<String> {
+    let mut decls = String::new();
+    let mut uses = Vec::new();
+    for line in src.lines() {
+        let (codata, rest) = if let Some(r) = line.strip_prefix("data ") {
+            (false, r)
+        } else if let Some(r) = line.strip_prefix("codata ") {
+            (true, r)
+        } else {
+            continue;
+        };
+        let head = rest.split('{').next()?.trim();
+        let name: String = head.chars().take_while(|c| c.is_alphanumeric() || *c == '_').collect();
+        if name.is_empty() {
+            continue;
+        }
+        let nparams = if head.contains('[') { head.matches(',').count() + 1 } else { 0 };
+        let targs = if nparams == 0 { String::new() } else { format!("[{}]", vec!["i64"; nparams].join(", ")) };
+        let k = uses.len();
+        if codata {
+            // was codata: now data with one constructor
+            decls.push_str(&format!("data {head} {{ Mk{name} }}\n"));
+            uses.push(format!("(let v{k}: {name}{targs} = Mk{name}; (v{k}).case{targs} {{ Mk{name} => {k} }})"));
+        } else {
+            decls.push_str(&format!("codata {head} {{ peek{name}: i64 }}\n"));
+            uses.push(format!("(let v{k}: {name}{targs} = new {{ peek{name} => {k} }}; (v{k}).peek{name}{targs})"));
+        }
+    }
+    if uses.is_empty() {
+        return None;
+    }
+    let mut body = String::from("0");
+    for u in uses {
+        body = format!("(({body}) + ({u}))");
+    }
+    Some(format!("{decls}\ndef main(): i64 {{\n  {body}\n}}\n"))
 }
 
 /// A sibling of `src`: the same program with the constructor / destructor lists of its type
@@ -456,7 +546,15 @@ pub fn kworker(tier: &str, seed: u64, w: u64, n: u64) -> i32 {
                 if rng.pct(35) {
                     history.push(Step::Compile(perturb_xtor_order(src)));
                 }
-                Instance { via_driver: rng.pct(25), keys: rng.next() | 1, history, repeat: [0, 0, 1, 2][rng.below(4)] }
+                // a sibling that declares the same type names with the opposite polarity
+                if rng.pct(20) {
+                    if let Some(f) = flip_polarity_sibling(src) {
+                        history.push(Step::Compile(f));
+                    }
+                }
+                let via_driver = rng.pct(25);
+                let order = if via_driver && rng.pct(70) { rng.next() | 1 } else { 0 };
+                Instance { via_driver, keys: rng.next() | 1, history, repeat: [0, 0, 1, 2][rng.below(4)], order }
             };
             let a = mk(&mut rng);
             let b = mk(&mut rng);
@@ -492,7 +590,7 @@ pub fn kworker(tier: &str, seed: u64, w: u64, n: u64) -> i32 {
     // state such as counters or caches); the hashes are compared across worker processes
     for (pi, (name, src)) in progs.iter().enumerate() {
         let mut rng = Rng::keyed(seed, w * 1_000_003 + pi as u64, "k-corpus");
-        let inst = Instance { via_driver: false, keys: rng.next() | 1, history: vec![], repeat: 0 };
+        let inst = Instance { via_driver: false, keys: rng.next() | 1, history: vec![], repeat: 0, order: 0 };
         sum.instances += 1;
         sum.compilations += 1;
         match run_instance(src, &inst) {
